@@ -1,5 +1,6 @@
 import GrinVerif.Lemmas.ChainBasic
 import GrinVerif.Lemmas.ChainApply
+import GrinVerif.Lemmas.ChainValue
 /-! # C01 — no value is created (value component of the balance equation, in the opening model
 of DESIGN §2.3; blinding-level faults are carried as tags and decided by the real code) -/
 namespace GV.Props.C01
@@ -33,5 +34,47 @@ theorem unbalanced_rejected (p : Params) (outs : List OutDef) (b : Blk) (iv : Na
     validateBody p outs b iv ≠ none := by
   intro h
   exact hc (block_valid_balances p outs b iv h).2
+
+
+/-- **State equation** (value component): along any replay of blocks whose bodies pass validation
+— bodies duplicate-free (`Blk.Sane`, what `verify_sorted_and_unique` enforces) — the total value of
+the unspent outputs grows by exactly one subsidy per block: the subsidy is the only new value,
+fees only move value. `utxoValue` = Σ of the openings of the unspent outputs. Holds for the path
+of every block (every fork), since the state of a block *is* the replay of its own path. -/
+theorem state_equation_step (p : Params) (outs : List OutDef) (bs : List Blk) (s s' : UState)
+    (hnd : (s.utxo.map (·.1)).Nodup) (hr : replay p s bs = .ok s')
+    (hb : ∀ b ∈ bs, b.Sane ∧ validateBody p outs b (sumVals outs b.ins) = none) :
+    utxoValue outs s' = utxoValue outs s + bs.length * p.reward :=
+  (replay_value p outs bs s s' hnd hr (fun b h =>
+    ⟨(hb b h).1, (validateBody_none p outs b _ (hb b h).2).2.2.2.2⟩)).1
+
+/-- … from a genesis whose outputs are distinct and worth one subsidy: after `n` blocks on top of
+the genesis the unspent outputs are worth `(n + 1) × reward` — the height-determined supply. -/
+theorem state_equation (p : Params) (outs : List OutDef) (g : Blk) (bs : List Blk) (s : UState)
+    (hgo : (g.outs.map (·.1)).Nodup) (hgv : sumVals outs (g.outs.map (·.1)) = p.reward)
+    (hr : replay p (genesisState g) bs = .ok s)
+    (hb : ∀ b ∈ bs, b.Sane ∧ validateBody p outs b (sumVals outs b.ins) = none) :
+    utxoValue outs s = (bs.length + 1) * p.reward := by
+  have hnd : ((genesisState g).utxo.map (·.1)).Nodup := by
+    simp only [genesisState, List.map_map]
+    exact hgo
+  have hv : utxoValue outs (genesisState g) = p.reward := by
+    rw [← hgv, sumVals_eq_sum]
+    simp only [utxoValue, genesisState, List.map_map]
+    rfl
+  rw [state_equation_step p outs bs _ s hnd hr hb, hv, Nat.add_mul]
+  omega
+
+/-- … and the unspent commitments of a replayed state are pairwise distinct (the invariant the
+equation rests on: a commitment is never unspent twice). -/
+theorem unspent_distinct (p : Params) (outs : List OutDef) (g : Blk) (bs : List Blk) (s : UState)
+    (hgo : (g.outs.map (·.1)).Nodup) (hr : replay p (genesisState g) bs = .ok s)
+    (hb : ∀ b ∈ bs, b.Sane ∧ validateBody p outs b (sumVals outs b.ins) = none) :
+    (s.utxo.map (·.1)).Nodup := by
+  have hnd : ((genesisState g).utxo.map (·.1)).Nodup := by
+    simp only [genesisState, List.map_map]
+    exact hgo
+  exact (replay_value p outs bs _ s hnd hr (fun b h =>
+    ⟨(hb b h).1, (validateBody_none p outs b _ (hb b h).2).2.2.2.2⟩)).2
 
 end GV.Props.C01
